@@ -106,12 +106,12 @@ def extract(repo=None, config="dev", quiet=True):
         with open(os.path.join(tmp, "OK"), "w") as fh:
             fh.write("%s %.1fs\n" % (th, time.time() - t0))
         os.rename(tmp, out)
-        # keep the cache small: drop fact dirs beyond the 48 most recent once they are half an hour old (parallel runs over scratch copies each need theirs to stay)
+        # keep the cache small: drop fact dirs beyond the 48 most recent once they are a few minutes old (parallel runs over scratch copies each need theirs to stay)
         fd = os.path.join(BUILD, "facts")
         try:
             ds = sorted((os.path.getmtime(os.path.join(fd, d)), d) for d in os.listdir(fd) if not d.endswith(".tmp"))
             for mt, d in ds[:-48]:
-                if time.time() - mt > 1800:  # never one that a check running side by side may be about to read
+                if time.time() - mt > 240:  # never one that a check running side by side may be about to read
                     shutil.rmtree(os.path.join(fd, d), ignore_errors=True)
             ld = os.path.join(BUILD, "locks")
             for l in os.listdir(ld):
